@@ -135,7 +135,7 @@ TEXT = {
                  "whole-table resolution), unmarshal_ok_declared (the gate Unmarshal now applies), undeclared_symbol_widens_without_gate (proved witness of the repaired defect). "
                  "Tied to the code by AUTHSEQ cases on pairs (T, T+B) with adversarial B, through builders, Serialize, "
                  "Unmarshal and AuthorizerFor; byte-level pairs whose authority block refers to an undeclared symbol; witness search evaluates the statement on the implementation.",
-        "note": COMMON_NOTE + "Modelled, not verified: wall-clock limit. The wire theorems assume variable names declared too; the library's gate leaves variable names unchecked (names only, injective: verdict-neutral by C12Rename, not composed formally).",
+        "note": COMMON_NOTE + "Modelled, not verified: wall-clock limit. The gate of the theorems is the gate of the code (blocksDeclaredV_eq; variable names included since fix c9a639e): unmarshal_attenuation_monotone holds for every token Unmarshal lets through.",
         "technique": "Lean 4 proof (prefix/accumulation induction over the block loop) + differential correspondence + relational witness search",
     },
     "C03": {
